@@ -283,11 +283,16 @@ func RunBranch(ctx context.Context, db *sql.DB, mode, via string, prepared bool,
 		defer c.Close()
 		x = c
 	}
-	if mode != "tx" {
+	if mode != "tx" && mode != "mixed" {
 		for _, s := range stmts {
 			out.Stmts = append(out.Stmts, runStmt(ctx, x, s.SQL, s.Args, prepared, s.Query))
 		}
 		return out
+	}
+	var tail []StmtText
+	if mode == "mixed" && len(stmts) >= 2 {
+		tail = stmts[len(stmts)-1:]
+		stmts = stmts[:len(stmts)-1]
 	}
 	var tx *sql.Tx
 	var err error
@@ -311,6 +316,9 @@ func RunBranch(ctx context.Context, db *sql.DB, mode, via string, prepared bool,
 	}
 	if err := tx.Commit(); err != nil {
 		out.CommitErr = err.Error()
+	}
+	for _, s := range tail {
+		out.Stmts = append(out.Stmts, runStmt(ctx, x, s.SQL, s.Args, prepared, s.Query))
 	}
 	return out
 }
